@@ -357,7 +357,7 @@ def evaluate(prop, res):
             msurf = model.get(name, {}).get("surface")
             if msurf is None:
                 continue
-            mdl = [(k, n, p == "1", c == "1", dd == "1") for (k, n, p, c, dd) in msurf]
+            mdl = [(k, n[2:] if n.startswith("r#") else n, p == "1", c == "1", dd == "1") for (k, n, p, c, dd) in msurf]
             # the model does not list the struct itself; steps and build are plain fns in the dump
             real_n = [("fn" if k in ("fn",) else k, n, p, c, dd) for (k, n, p, c, dd) in real if not (k == "struct" and n == name)]
             mdl_n = [("fn" if k in ("step", "build") else k, n, p, c, dd) for (k, n, p, c, dd) in mdl]
@@ -407,6 +407,58 @@ def evaluate(prop, res):
                 cov["builder_yes" if real_has else "builder_no"] += 1
                 if real_has != (mb != "none"):
                     add("correspondence", "builder presence differs from the model", {"declaration": name, "real": real_has, "model": mb})
+    # ---- C14: the set-level condition of the property, computed from the declaration alone -----------------------
+    if prop == "C14":
+        for d in decls:
+            name = d["name"]
+            if d["kind"] != "bitfield" or name not in accepted or not d.get("wellformed", True):
+                continue
+            N = render.base_width(d)
+            counts = collections.Counter()
+            for f in d["fields"]:
+                if "w" not in f["access"] or f.get("spec") is None:
+                    continue
+                K = f["count"] or 1
+                stride = f["spec"]["stride"]
+                if stride is None:
+                    stride = sum(hi - lo + 1 for lo, hi in f["spec"]["ranges"])
+                for i in range(K):
+                    for lo, hi in f["spec"]["ranges"]:
+                        for p in range(lo + i * stride, hi + i * stride + 1):
+                            counts[p] += 1
+            sound = all(v <= 1 for v in counts.values()) and (d["default"] is not None or all(counts.get(p, 0) >= 1 for p in range(N)))
+            real_has = any(x[1] == "builder" for x in res["surfaces"].get(name, []))
+            cov["builder_spec_yes" if sound else "builder_spec_no"] += 1
+            if real_has != sound:
+                src, _ = decl_source(table, d)
+                add("violation", "builder() is %s although the declaration is %s" % ("offered" if real_has else "missing", "sound and complete" if sound else "unsound or incomplete"),
+                    {"declaration": name, "source": src, "double_covered": sorted(p for p, v in counts.items() if v > 1)[:8]})
+            # type-state chain of the real expansion: impl headers Partial<prev> … -> Partial<next>
+    # ---- C18: token scan -------------------------------------------------------------------------------------------
+    if prop == "C18":
+        for name, sc in res.get("token_scan", {}).items():
+            cov["expansions_scanned"] += 1
+            if sc.get("unsafe"):
+                add("violation", "expansion contains `unsafe`", {"declaration": name})
+            if sc.get("bad_paths"):
+                add("violation", "expansion refers to a path outside core / arbitrary_int", {"declaration": name, "paths": sc["bad_paths"]})
+        nostd = res.get("nostd")
+        if nostd is not None:
+            cov["nostd_decls"] = nostd.get("decls", 0)
+            for name, errs in nostd.get("rejected", {}).items():
+                d = table.get(name)
+                src = decl_source(table, d)[0] if d else ""
+                add("violation", "does not compile under #![no_std] #![deny(missing_docs)]", {"declaration": name, "errors": errs[:3], "source": src})
+            if nostd.get("fail"):
+                add("correspondence", "the no_std crate could not be built", {"detail": nostd["fail"]})
+    # ---- C19: declarations that must not compile with `debug` -------------------------------------------------------
+    if prop == "C19":
+        for d in decls:
+            if "debug-invalid" in d["classes"]:
+                cov["debug_invalid_decls"] += 1
+                if d["name"] in accepted:
+                    src, _ = decl_source(table, d)
+                    add("violation", "a declaration with `debug` and an array / unreadable field compiles", {"declaration": d["name"], "rule": d["rule"], "source": src})
     if samples:
         cov["_samples"] = samples
     return findings, cov
@@ -422,7 +474,7 @@ REQUIRED_COVERAGE = {
     "C08": ["ops_get", "ops_with"], "C09": ["decls_valid", "decls_invalid"], "C10": ["decls_valid", "decls_invalid"],
     "C11": ["ops_hist", "ops_rt"], "C12": ["ops_hist"], "C13": ["ops_build"], "C14": ["builder_yes", "builder_no"],
     "C15": ["const_items"], "C16": ["ops_get", "ops_with", "profile_lines_compared"], "C17": ["accessor_items"],
-    "C18": ["doc_items"], "C19": ["ops_dbg"],
+    "C18": ["doc_items", "expansions_scanned"], "C19": ["ops_dbg", "debug_invalid_decls"],
 }
 
 
